@@ -122,6 +122,17 @@ Definition marshal (orig : list cfield) (render : string -> list line) : list li
 (* the kept comments, in output order *)
 Definition kept_comments (orig : list cfield) : list line := flat_map cf_comment orig.
 
+(* ---------- comment lines that YAML also reads as comments wherever they are re-emitted ----------
+   isCommentOrBlankLine is a per-line test; YAML decides per context: a line such as "    # x" is a
+   comment between two top-level fields but CONTENT when it follows a block scalar of indentation
+   <= 4.  A comment line is [plain] when it is blank (spaces only) or has its '#' in column 0:
+   such a line ends any block scalar and is a YAML comment in every position marshal can put it. *)
+Definition plain_comment (l : line) : bool :=
+  match trim_left_sp l with
+  | EmptyString => true
+  | _ => match l with String c _ => Ascii.eqb c "#"%char | EmptyString => true end
+  end.
+
 (* ---------- bytes <-> lines (used by the harness side of the correspondence only) ---------- *)
 Definition nl : string := String (ascii_of_N 10) EmptyString.
 
